@@ -11,7 +11,7 @@ CHECKS = {
    text="Generated-input search for crashes and hangs: clean generated workflows / action metadata / reusable workflows / configurations and repository test files receive hostile structural, tag, alias, nesting, expression and byte-level mutations and are fed through Lint, LintFiles (with and without a repository), a local action, a called reusable workflow, ParseConfig and Command.Main; panics inside LintFiles goroutines kill the worker and are recovered by the driver from the last-case file.",
    design="DESIGN.md section 5, C01"),
  "C02": dict(
-   technique="rapid-generated collision templates, random workflows with seeded errors and references, repository test data and multi-file worlds; repeat relation: R fresh lints under GOMAXPROCS 1/2/4/16 must give byte-identical output and error sequences",
+   technique="rapid-generated collision templates, random workflows with seeded errors and references, repository test data and multi-file worlds; repeat relation: R fresh lints under GOMAXPROCS 1/2/4/16 must give byte-identical output and error sequences; also repeated runs of one Linter value, repeated semantic-checker evaluations and repeated processes of the built command",
    text="Repeat relation over generated cases built to offer several candidates or several diagnostics at one position (format placeholders, missing inputs of actions and reusable workflows, runner label conflicts, several needs cycles, broken local action used by several jobs/files, references to every defined entity from every position); each case is linted 16 (48) times with fresh linters under varying GOMAXPROCS; every run re-randomises map iteration, so an order dependence survives with probability 2^-(R-1).",
    note="Trusted base: Go's per-range map randomisation and scheduler as the source of schedule variety; goroutine interleavings inside one LintFiles run are sampled (GOMAXPROCS, repetition), not enumerated. " + BASE_NOTE,
    design="DESIGN.md section 5, C02"),
@@ -20,7 +20,7 @@ CHECKS = {
    text="For every generated clean workflow (all sections including rare and expression-valued forms, random layout/quoting) every scalar value leaf is replaced in turn by each malformed ${{ }} form and the linter must report at that scalar (an expression syntax error where the model says the value is a template). The model, not actionlint, decides which leaves exist and which are templates.",
    design="DESIGN.md section 5, C03"),
  "C04": dict(
-   technique="exhaustive enumeration of short token sequences and character strings + rapid random trees/edits/literals, differential against a reference lexer and precedence-climbing parser; structure compared modulo associativity",
+   technique="exhaustive enumeration of short token sequences and character strings + rapid random trees/edits/literals, differential against a reference lexer and precedence-climbing parser; structure compared modulo associativity; sentences also through the linter as placeholders and as bare if: conditions (exhaustive up to 3/4 tokens)",
    text="Generated-input search against an independent reference grammar: all token sequences <=5 (6) tokens and all strings <=4 (5) characters over the lexically relevant alphabet are parsed by actionlint and by the harness's reference parser; verdict (accept/reject), tree structure modulo associativity, literal values and error offset/line/column are compared; random deep trees with known structure, single-token edits, number/string literal fuzz and a sample through the linter extend beyond the exhaustive bound.",
    design="DESIGN.md section 5, C04"),
  "C05": dict(
@@ -28,7 +28,7 @@ CHECKS = {
    text="Workflow shapes (needs DAG, step order and id placement, matrices with literal and expression-defined parts, workflow_call/workflow_dispatch inputs, declared/undeclared secrets, job and workflow outputs) are generated together with a scope model; references to defined and undefined names are planted at every kind of position where the context is available and each probe's verdict must equal the model's.",
    design="DESIGN.md section 5, C05"),
  "C06": dict(
-   technique="rapid metamorphic testing: (typing environment, expression, loosening) triples; accepted under the environment => accepted under the loosened one; plus clean-workflow variant with fromJSON-defined matrix parts",
+   technique="rapid metamorphic testing: (typing environment, expression, loosening) triples; accepted under the environment => accepted under the loosened one; plus clean-workflow variants (fromJSON-defined matrix parts, step ids given as expressions, workflow_dispatch inputs losing their type) and a reference for members of merged open/closed objects",
    text="Metamorphic relation over generated typing environments and expressions: every expression accepted by the semantic checker must still be accepted after one type occurrence is replaced by any or a closed object is opened; the same relation is checked end to end on generated clean workflows whose matrix row/include/whole matrix is replaced by an expression.",
    design="DESIGN.md section 5, C06"),
  "C07": dict(
